@@ -324,6 +324,39 @@ Section Build.
       split; [exact Hc|]. split; [exact Hl|]. destruct Hok as [_ [H10 _]]. exact H10.
   Qed.
 
+  (* every accepted configuration satisfies the size rules *)
+  Lemma build_raw p a key tag v id P :
+    build Hash AES p a key tag v id = Built P -> exists r, raw_new Hash AES a key tag = Ok r.
+  Proof.
+    destruct p; cbn [build].
+    - destruct (raw_new Hash AES a key tag) as [r| |]; try discriminate. eauto.
+    - destruct (negb (params_ok a (length key) tag)); [discriminate|].
+      destruct (negb (key_ok v id (length key) (length key))); [discriminate|].
+      unfold key_mac. destruct (negb _); [discriminate|].
+      destruct (raw_new Hash AES a key tag) as [r| |]; try discriminate. eauto.
+    - destruct (negb (params_ok a (length key) tag)); [discriminate|].
+      destruct (negb (key_ok v id (length key) (length key))); [discriminate|].
+      unfold key_mac. destruct (negb _); [discriminate|].
+      destruct (raw_new Hash AES a key tag) as [r| |]; try discriminate. eauto.
+    - destruct (negb (params_ok a (length key) tag)); [discriminate|].
+      destruct (negb (key_ok v id (length key) (length key))); [discriminate|].
+      destruct (raw_new Hash AES a key tag) as [r| |]; try discriminate. eauto.
+  Qed.
+
+  Theorem build_sizes p a key tag v id P :
+    build Hash AES p a key tag v id = Built P ->
+    match a with
+    | AHmac h => exists ha, h = Some ha /\ (10 <= tag <= digest_size ha)%nat /\ (16 <= length key)%nat
+    | ACmac => (10 <= tag <= 16)%nat /\ (length key = 16 \/ length key = 24 \/ length key = 32)%nat
+    end.
+  Proof.
+    intros HB. destruct (build_raw _ _ _ _ _ _ _ HB) as [r Hr].
+    destruct (raw_new_ok _ _ _ _ Hr) as [_ [H10 [_ [_ Ha]]]].
+    destruct a as [h|].
+    - destruct Ha as [ha [-> [Ht Hk]]]. exists ha. repeat split; auto.
+    - destruct Ha as [Ht Hk]. repeat split; auto.
+  Qed.
+
   (* several keys: exactly the tags some key of the keyset computes are accepted *)
   Definition spec_tag (k : alg * bytes * nat * variant * N) (m : bytes) : bytes :=
     let '(a, key, tag, v, id) := k in
